@@ -42,7 +42,7 @@ func verifC12Setup(hook *verifHook) *verifC12World {
 		Children: []verifChildRule{{Res: env.ConfigMapRes, Strategy: verifStrategyOf("InPlace")}},
 		Sync:     hook,
 	})
-	pc.SnapshotFromStore()
+	pc.Resnapshot()
 	return &verifC12World{w: w, pc: pc, parent: parent}
 }
 
@@ -144,7 +144,7 @@ func VerifC12_SyncFaults() {
 	// once faults stop the cluster converges to the fault-free state
 	w.Srv.FaultKind = env.FaultNone
 	for i := 0; i < 3; i++ {
-		s.pc.SnapshotFromStore()
+		s.pc.Resnapshot() // unchanged objects keep their identity, as in a real informer cache
 		s.pc.Queue.Items = append(s.pc.Queue.Items, "ns/p")
 		s.pc.processNextWorkItem()
 	}
@@ -239,7 +239,7 @@ func VerifC12_TwoFaults() {
 	rt.Assert(s.pc.Queue.Count("add-rate-limited")+s.pc.Queue.Count("forget") == 1, "two-faults/work-item-neither-requeued-nor-forgotten")
 	w.Srv.DisarmFault()
 	for i := 0; i < 3; i++ {
-		s.pc.SnapshotFromStore()
+		s.pc.Resnapshot() // unchanged objects keep their identity, as in a real informer cache
 		s.pc.Queue.Items = append(s.pc.Queue.Items, "ns/p")
 		s.pc.processNextWorkItem()
 	}
